@@ -28,6 +28,12 @@ def padLoop (idSize : Nat) (cap : Nat) : Nat → DB → Nat → Tape → Except 
       padLoop idSize cap fuel (dbInsert db kw ids) (N + n) t3
     else .ok (db, t)
 
+/-- the 32-byte draws of a tape (the dummy keywords of the padding loop are among them) -/
+def draws32 (t : Tape) : List Bytes :=
+  t.filterMap fun d => match d with
+    | .bytes b => if b.length = 32 then some b else none
+    | _ => none
+
 /-- `[ske.Encrypt(key, x) for x in xs]`, joined -/
 def encAll (ske : AESxCBC) (lv : Leaves) (key : Bytes) : List Bytes → Tape → Except Err (List Bytes × Tape)
   | [], t => .ok ([], t)
@@ -313,6 +319,9 @@ def goodTapeB (t : Tape) : Bool :=
 
 def hypsB (K : Bytes) (db : DB) (t : Tape) (absent : List Bytes) : Bool :=
   goodTapeB t &&
+  -- C05 (`ANSS16.shape`): identifiers of the configured size; no dummy keyword repeats a keyword or another dummy
+  db.all (fun p => p.2.all fun x => x.length == cfg.idSize.toNat) &&
+  nodupBy (db.map (·.1) ++ draws32 t) &&
   (match padLoop cfg.idSize.toNat (2 ^ clog2 db.total) (2 ^ clog2 db.total + 1) db db.total t with
    | .ok (pdb, _) => db.all (fun p => pdb.contains p)
    | .error _ => false) &&
